@@ -120,14 +120,27 @@ def r2(ctx):
                         d[c["m"]] = a["res"]
             if len(d) == 3:
                 chains.append((x["pat"]["id"], d, x))
-    # the pair returned as Ok((start, finish))
+    # the pair returned as Ok((start, finish)); a binding of a tuple pattern matched against (a, b) stands for a / b
+    cid = [c[0] for c in chains]
+    alias = {}
+    for m in find_matches(hir, min_arms=1, source=None):
+        sc = peel(m["scrut"], methods=False)
+        if sc["k"] == "Tup":
+            src = [peel(e, methods=False).get("res") for e in sc["es"]]
+            for a in m["arms"]:
+                p = a["pat"]
+                if p["k"] == "PTup" and len(p["subs"]) == len(src):
+                    for sub, s_ in zip(p["subs"], src):
+                        for b in walk(sub):
+                            if b["k"] == "Bind":
+                                alias[b["id"]] = s_
     pair = None
     for x in walk_exprs(hir):
         if x["k"] == "Call" and x.get("ctor") and short(x["callee"], 1) == "Ok" and x["args"]:
             t = peel(x["args"][0], methods=False)
             if t["k"] == "Tup" and len(t["es"]) == 2:
                 ids = [peel(e, methods=False).get("res") for e in t["es"]]
-                cid = [c[0] for c in chains]
+                ids = [alias.get(i, i) for i in ids]
                 if ids[0] in cid and ids[1] in cid:
                     pair = ids
     if pair is None or len(chains) < 2:
